@@ -103,6 +103,18 @@ pub fn fresh_equivalence(script: &Script, tr: &Trace, flavor: Flavor, watchdog: 
         return true;
     }
     let seen = |s: &Option<crate::driver::Seen>| s.as_ref().map(|s| (s.id, s.key, s.aux, s.ttl));
+    // When exactly an entry whose TTL has elapsed is reclaimed is the implementation's business (within
+    // C05's bound) and may depend on when the cache was built; so while either run still holds such an
+    // entry only what a client can see is compared (returns, look-ups, TTLs, the live entries and their
+    // charges, hit/miss counters); everything else (callbacks so far, used, len, eviction counters,
+    // histogram) is compared at the records where both runs hold live entries only.
+    let live = |o: &crate::script::Obs| {
+        let mut v: Vec<(u64, u64, u64, u64, u64)> = o.snap.store.iter().filter(|e| e.ttl_ns == 0 || e.created_ns.saturating_add(e.ttl_ns) > o.vnow).map(|e| (e.index, e.conflict, e.ttl_ns, e.created_ns, e.tag)).collect();
+        v.sort();
+        v
+    };
+    let settled = |o: &crate::script::Obs| o.snap.store.iter().all(|e| e.ttl_ns == 0 || e.created_ns.saturating_add(e.ttl_ns) > o.vnow);
+    let (mut evs_a, mut evs_b): (Vec<String>, Vec<String>) = (Vec::new(), Vec::new());
     for (i, (x, y)) in a.iter().zip(b.iter()).enumerate() {
         macro_rules! cmp {
             ($what:expr, $l:expr, $r:expr) => {{
@@ -122,35 +134,40 @@ pub fn fresh_equivalence(script: &Script, tr: &Trace, flavor: Flavor, watchdog: 
         cmp!("wait error", x.wait_err.clone(), y.wait_err.clone());
         cmp!("value seen by the step", x.seen.as_ref().map(seen), y.seen.as_ref().map(seen));
         cmp!("update applied inside the call", x.update_path, y.update_path);
-        if i > 0 {
-            let evs = |o: &crate::script::Obs| {
-                let mut v: Vec<String> = o.events.iter().map(|e| format!("{:x?}", e.kind)).collect();
-                v.sort();
-                v
-            };
-            cmp!("callbacks and drops", evs(x), evs(y));
-        }
         cmp!("get of every key", x.probe.get.iter().map(seen).collect::<Vec<_>>(), y.probe.get.iter().map(seen).collect::<Vec<_>>());
         cmp!("get_mut of every key", x.probe.get_mut.iter().map(seen).collect::<Vec<_>>(), y.probe.get_mut.iter().map(seen).collect::<Vec<_>>());
         cmp!("get_ttl of every key", x.probe.ttl.clone(), y.probe.ttl.clone());
-        let store = |o: &crate::script::Obs| {
-            let mut v: Vec<(u64, u64, u64, u64, u64)> = o.snap.store.iter().map(|e| (e.index, e.conflict, e.ttl_ns, e.created_ns, e.tag)).collect();
+        cmp!("live entries (index, conflict, ttl, created, value)", live(x), live(y));
+        let live_costs = |o: &crate::script::Obs| {
+            let idx: std::collections::HashSet<u64> = live(o).iter().map(|e| e.0).collect();
+            let mut v: Vec<(u64, i64)> = o.snap.costs.iter().filter(|c| idx.contains(&c.0)).cloned().collect();
             v.sort();
             v
         };
-        cmp!("resident entries (index, conflict, ttl, created, value)", store(x), store(y));
-        let costs = |o: &crate::script::Obs| {
-            let mut v = o.snap.costs.clone();
-            v.sort();
-            v
-        };
-        cmp!("per-key charges", costs(x), costs(y));
-        cmp!("used", x.snap.used, y.snap.used);
+        cmp!("charges of the live entries", live_costs(x), live_costs(y));
         cmp!("max_cost", x.snap.max_cost, y.snap.max_cost);
-        cmp!("len()", x.snap.len, y.snap.len);
-        cmp!("metrics (hits, misses, keys added/updated/evicted, cost added/evicted, sets dropped/rejected)", x.metrics.map(|m| m[..9].to_vec()), y.metrics.map(|m| m[..9].to_vec()));
-        cmp!("ratio()", x.ratio.map(|r| r.to_bits()), y.ratio.map(|r| r.to_bits()));
-        cmp!("life-expectancy histogram", x.hist.clone(), y.hist.clone());
+        cmp!("hits and misses", x.metrics.map(|m| m[..2].to_vec()), y.metrics.map(|m| m[..2].to_vec()));
+        if i > 0 {
+            evs_a.extend(x.events.iter().map(|e| format!("{:x?}", e.kind)));
+            evs_b.extend(y.events.iter().map(|e| format!("{:x?}", e.kind)));
+        }
+        if settled(x) && settled(y) {
+            rep.count("c11_settled_records_compared_in_full");
+            evs_a.sort();
+            evs_b.sort();
+            cmp!("callbacks and drops so far", evs_a.clone(), evs_b.clone());
+            let costs = |o: &crate::script::Obs| {
+                let mut v = o.snap.costs.clone();
+                v.sort();
+                v
+            };
+            cmp!("per-key charges", costs(x), costs(y));
+            cmp!("used", x.snap.used, y.snap.used);
+            cmp!("len()", x.snap.len, y.snap.len);
+            cmp!("metrics (hits, misses, keys added/updated/evicted, cost added/evicted, sets dropped/rejected)", x.metrics.map(|m| m[..9].to_vec()), y.metrics.map(|m| m[..9].to_vec()));
+            cmp!("ratio()", x.ratio.map(|r| r.to_bits()), y.ratio.map(|r| r.to_bits()));
+            cmp!("life-expectancy histogram", x.hist.clone(), y.hist.clone());
+        }
     }
     !stop
 }
